@@ -5,7 +5,7 @@ import hashlib
 import pathlib
 import time
 from copy import deepcopy
-from contextlib import contextmanager
+from contextlib import contextmanager, nullcontext
 from collections import defaultdict
 from itertools import chain
 from enum import IntEnum
@@ -5289,17 +5289,25 @@ class System(object, metaclass=SystemMetaclass):
             discrete_outputs = self._discrete_outputs
             filt = self._filtered_vars_to_record
 
-            data = {'input': {}, 'output': {}, 'residual': {}}
-            if options['record_inputs'] and (inputs._names or len(discrete_inputs) > 0):
-                data['input'] = self._retrieve_data_of_kind(filt, 'input', vec_name, local)
+            # While the model is running the vectors are scaled; record the physical (unscaled)
+            # values.  Outside of a run the vectors are already physical.
+            if self._recording_iter.stack:
+                context = self._unscaled_context(outputs=[outputs], residuals=[residuals])
+            else:
+                context = nullcontext()
 
-            if options['record_outputs'] and (outputs._names or len(discrete_outputs) > 0):
-                data['output'] = self._retrieve_data_of_kind(filt, 'output', vec_name, local)
+            with context:
+                data = {'input': {}, 'output': {}, 'residual': {}}
+                if options['record_inputs'] and (inputs._names or len(discrete_inputs) > 0):
+                    data['input'] = self._retrieve_data_of_kind(filt, 'input', vec_name, local)
 
-            if options['record_residuals'] and residuals._names:
-                data['residual'] = self._retrieve_data_of_kind(filt, 'residual', vec_name, local)
+                if options['record_outputs'] and (outputs._names or len(discrete_outputs) > 0):
+                    data['output'] = self._retrieve_data_of_kind(filt, 'output', vec_name, local)
 
-            self._rec_mgr.record_iteration(self, data, metadata)
+                if options['record_residuals'] and residuals._names:
+                    data['residual'] = self._retrieve_data_of_kind(filt, 'residual', vec_name, local)
+
+                self._rec_mgr.record_iteration(self, data, metadata)
 
         # All calls to _solve_nonlinear are recorded, The counter is incremented after recording.
         self.iter_count += 1
